@@ -362,3 +362,203 @@ def _contains_false(model, extra):
     res = CleanupTranslator.contains_false(lits)
     has = any(_const_value(l) is False for l in lits)
     return {"confirmed": bool(res) and not has, "input": [str(l) for l in lits], "result": res}
+
+
+# ---------------------------------------------------------------------------------------------
+# C19
+TRAITS = ["minmax_chains", "symmetry", "duplication", "cleanup", "unused", "sum_chains", "math", "inline", "projection"]
+TOKENS = ["all", "none", "default"] + TRAITS
+
+
+def _tokens_from_model(model):
+    toks = []
+    for t in TOKENS:
+        toks += [t] * min(int(model.get("n_" + t, 0)), 3)
+    return toks
+
+
+def _expected_enable(toks):
+    return {k for k in TRAITS if "all" in toks or k in toks or ("default" in toks and k != "duplication")}
+
+
+@mirror("verify_enable")
+def _verify_enable(model, extra):
+    from argparse import ArgumentTypeError
+
+    from ngo.utils.parser import get_parser
+
+    toks = _tokens_from_model(model)
+    if not toks:
+        return {"confirmed": False, "why": "empty token list is rejected by argparse"}
+    want_error = "none" in toks and len(toks) > 1
+    try:
+        args = get_parser().parse_args(["--enable"] + toks)
+    except ArgumentTypeError as e:
+        return {"confirmed": not want_error, "argv": toks, "got": "ArgumentTypeError: " + str(e), "want_error": want_error}
+    got = {k for k in TRAITS if k in args.enable}
+    return {"confirmed": want_error or got != _expected_enable(toks), "argv": toks, "got": sorted(got), "want": sorted(_expected_enable(toks)), "want_error": want_error}
+
+
+PRG = "{a(1..3)}. b(X) :- a(X), not c(X). c(X) :- a(X), X > 1. x :- b(X), b(X). #show b/1."
+
+
+@mirror("main_wiring")
+def _main_wiring(model, extra):
+    import os
+    import subprocess
+    import sys
+
+    from clingo.ast import parse_string
+
+    from ngo.api import optimize
+    from ngo.utils.globals import auto_detect_input, auto_detect_output
+
+    toks = _tokens_from_model(model) or ["default"]
+    if "none" in toks and len(toks) > 1:
+        toks = ["none"]
+    confirmed = []
+    for opts in ([], ["--input-predicates", "a/1"], ["--output-predicates", ""], ["--input-predicates", "auto", "--output-predicates", "b/1"]):
+        r = subprocess.run([sys.executable, "-m", "ngo", "--enable"] + toks + opts, input=PRG, capture_output=True, text=True, env=dict(os.environ), timeout=60)
+        prg = []
+        parse_string(PRG, prg.append)
+        from ngo.utils.ast import Predicate
+
+        inp = auto_detect_input(prg)
+        outp = auto_detect_output(prg)
+        if "--input-predicates" in opts and opts[opts.index("--input-predicates") + 1] != "auto":
+            inp = [Predicate("a", 1)]
+        if "--output-predicates" in opts:
+            v = opts[opts.index("--output-predicates") + 1]
+            outp = [] if v == "" else [Predicate("b", 1)]
+        en = _expected_enable(toks)
+        want = "".join(str(s) + "\n" for s in optimize(prg, inp, outp, **{k: (k in en) for k in TRAITS}))
+        if r.stdout != want or r.returncode != 0:
+            confirmed.append({"argv": ["--enable"] + toks + opts, "stdout": r.stdout[-800:], "want": want[-800:], "rc": r.returncode, "stderr": r.stderr[-300:]})
+    return {"confirmed": bool(confirmed), "mismatches": confirmed[:2]}
+
+
+@mirror("parser_constants")
+def _parser_constants(model, extra):
+    import inspect
+
+    from ngo.api import optimize
+    from ngo.utils.parser import ALL_OPTIONS, DEFAULT_OPTIONS
+
+    bools = {k: p.default for k, p in inspect.signature(optimize).parameters.items() if isinstance(p.default, bool)}
+    bad = sorted(ALL_OPTIONS) != sorted(bools) or sorted(DEFAULT_OPTIONS) != sorted(set(ALL_OPTIONS) - {"duplication"}) or sorted(DEFAULT_OPTIONS) != sorted(k for k, v in bools.items() if v) or sorted(ALL_OPTIONS) != sorted(TRAITS)
+    return {"confirmed": bad, "ALL_OPTIONS": ALL_OPTIONS, "DEFAULT_OPTIONS": DEFAULT_OPTIONS, "optimize_flags": bools}
+
+
+@mirror("stdout_scan")
+def _stdout_scan(model, extra):
+    import os
+    import subprocess
+    import sys
+
+    r = subprocess.run([sys.executable, "-m", "ngo", "--enable", "all", "--log", "debug"], input=PRG, capture_output=True, text=True, env=dict(os.environ), timeout=60)
+    from clingo.ast import parse_string
+
+    bad = []
+    for line in r.stdout.splitlines():
+        try:
+            parse_string(line, lambda s: None)
+        except RuntimeError:
+            bad.append(line)
+    return {"confirmed": bool(bad), "non_program_lines_on_stdout": bad[:5]}
+
+
+PASS_TABLE = [
+    ("cleanup", "CleanupTranslator", ["IN"]),
+    ("unused", "UnusedTranslator", ["PRG", "IN", "OUT"]),
+    ("duplication", "LiteralDuplicationTranslator", ["PRG", "IN"]),
+    ("symmetry", "SymmetryTranslator", ["PRG", "IN"]),
+    ("minmax_chains", "MinMaxAggregator", ["PRG", "IN"]),
+    ("sum_chains", "SumAggregator", ["PRG", "IN"]),
+    ("math", "MathSimplification", ["PRG"]),
+    ("inline", "InlineTranslator", ["PRG", "IN", "OUT"]),
+    ("projection", "ProjectionTranslator", ["PRG", "IN"]),
+]
+
+
+@mirror("optimize_gating")
+def _optimize_gating(model, extra):
+    """run the real ngo.api.optimize with every pass replaced by a recorder that tags the program it returns"""
+    import ngo.api as api
+
+    flags = {fl: bool(model.get("flag_" + fl, False)) for fl, _c, _k in PASS_TABLE}
+    log = []
+    IN, OUT = ["IN"], ["OUT"]
+    saved = {}
+    counter = {"round": 0}
+
+    def mk(cls):
+        class Rec:  # pylint: disable=too-few-public-methods
+            def __init__(self, *a, **k):
+                self.a = a
+                log.append(("init", cls, a, k))
+
+            def execute(self, prg):
+                log.append(("execute", cls, prg))
+                # change the program in the first round only, so that the loop runs exactly twice
+                return list(prg) + ([cls] if counter["round"] == 0 else [])
+
+        return Rec
+
+    def tagger(name):
+        def f(prg):
+            log.append((name, list(prg)))
+            if name == "exline_arithmetic":
+                counter["round"] += 1
+            return list(prg) + ([name] if name != "exline_arithmetic" else [])
+
+        return f
+
+    for _fl, cls, _k in PASS_TABLE:
+        saved[cls] = getattr(api, cls)
+        setattr(api, cls, mk(cls))
+    for name in ("preprocess", "postprocess", "exline_arithmetic"):
+        saved[name] = getattr(api, name)
+        setattr(api, name, tagger(name))
+    try:
+        res = api.optimize(["P"], IN, OUT, **flags)
+    finally:
+        for k, v in saved.items():
+            setattr(api, k, v)
+    # expected trace
+    problems = []
+    pos = 0
+    cur = ["P"]
+
+    def expect(ev):
+        nonlocal pos
+        if pos >= len(log) or log[pos][:2] != ev[:2]:
+            problems.append({"at": pos, "want": str(ev)[:200], "got": str(log[pos])[:200] if pos < len(log) else None})
+            return None
+        pos += 1
+        return log[pos - 1]
+
+    e = expect(("preprocess", cur))
+    cur = cur + ["preprocess"]
+    for rnd in range(2):
+        for fl, cls, kinds in PASS_TABLE:
+            if not flags[fl]:
+                continue
+            e = expect(("init", cls))
+            if e is not None:
+                want = tuple({"PRG": cur, "IN": IN, "OUT": OUT}[k] for k in kinds)
+                if tuple(e[2]) != want or e[3]:
+                    problems.append({"constructor": cls, "got": str(e[2])[:200], "want": str(want)[:200]})
+            e = expect(("execute", cur))
+            if e is not None and (e[1] != cls or e[2] != cur):
+                problems.append({"execute": cls, "got": str(e)[:200], "want_program": str(cur)})
+            if rnd == 0:
+                cur = cur + [cls]
+        e = expect(("exline_arithmetic", cur))
+        if not any(flags.values()):
+            break
+    e = expect(("postprocess", cur))
+    if pos != len(log):
+        problems.append({"extra_events": [str(x)[:100] for x in log[pos:][:4]]})
+    if res != cur + ["postprocess"]:
+        problems.append({"result": str(res), "want": str(cur + ["postprocess"])})
+    return {"confirmed": bool(problems), "flags": flags, "problems": problems[:4]}
